@@ -134,6 +134,35 @@ def check_function(ctx, mod, q, fn):
     par = _parents(fn)
     n = 0
     cfg = None
+    # `p = p or <default>`: an explicitly given falsy argument (False, 0,
+    # an empty container) is replaced as if it had not been given - unless
+    # the default is itself the empty value of that kind
+    for st in walk_no_nested(fn, False):
+        if not (isinstance(st, ast.Assign) and len(st.targets) == 1
+                and isinstance(st.targets[0], ast.Name)
+                and st.targets[0].id in params
+                and isinstance(st.value, ast.BoolOp)
+                and isinstance(st.value.op, ast.Or)
+                and isinstance(st.value.values[0], ast.Name)
+                and st.value.values[0].id == st.targets[0].id):
+            continue
+        n += 1
+        rest = st.value.values[1:]
+        empty = all(
+            (isinstance(r, ast.Constant) and not r.value)
+            or (isinstance(r, (ast.Dict, ast.List, ast.Tuple, ast.Set))
+                and not (getattr(r, "keys", None) or getattr(r, "elts", None)))
+            or (isinstance(r, ast.Call) and norm(r.func) in (
+                "dict", "list", "tuple", "set") and not r.args
+                and not r.keywords)
+            for r in rest)
+        pn = st.targets[0].id
+        ctx.check(empty, st, f"{mod.name}.{q}: `{norm(st)[:50]}`",
+                  f"{mod.relpath}:{q} replaces its optional argument "
+                  f"`{pn}` by `{norm(st.value)[:50]}`: only None means 'not "
+                  f"given', but an explicitly passed falsy value (False, 0, "
+                  "an empty container) is overridden as well, so the call "
+                  "does not do what was requested")
     for p in params:
         derefs = []
         for node in walk_no_nested(fn, False):
